@@ -14,7 +14,8 @@ RULE = ("explicit-state BFS over PAIRS (private node, public node) grown from th
         "roots = scalar x chain-code boundary alphabet, each also parsed from an xpub/xprv string at depth 3/254; PRF-corner layer: "
         "left half in {1, 2, k_par (forces point doubling), n-1, n-k-1, n-k+1, 2^255} on every root x 3 indexes; refusal grid: every "
         "public root x hardened indexes through ckd / derive_path (one hardened member at each position) / generate_children (ranges "
-        "touching 2^31): must raise and never add a key. non-trivial = pair compared with the reference / refusal observed")
+        "touching 2^31): must raise and never add a key. non-trivial = pair compared with the reference / refusal observed"
+        "; intermediate-corner classes (vf/corners.py) for IL, IR, parent x/y, child x/y, fingerprint: every byte position 00/ff, every first/last byte value, one public+private pair step each")
 
 
 def pub_root(root):
